@@ -63,3 +63,79 @@ Theorem C01_generated_parsers_decide_the_language : forall rg g lim sts tbl,
     (~ derives g w -> tree_run g tbl w fuel' = Reject).
 Proof. exact gen_decides_language_analyze. Qed.
 Print Assumptions C01_generated_parsers_decide_the_language.
+
+(* ---- namespace stdex / utils below the model (appended by tools/append_props.py) *)
+Require Import Ctpg.Base.Prelude.
+Require Import Ctpg.Model.Grammar.
+Require Import Ctpg.Model.Containers.
+Require Import Ctpg.Model.Utils.
+Require Import Ctpg.Proofs.ContainersBits.
+Require Import Ctpg.Proofs.ContainersVec.
+Require Import Ctpg.Proofs.ContainersSort.
+Require Import Ctpg.Proofs.UtilsCorrect.
+
+(* BELOW THE GENERATOR MIRROR (word-level mirror of namespace stdex, tied to the real templates by kernel-checked observations): for every size N and EVERY sequence of cbitset operations, test(j) answers membership in the set of indices the operations describe - the 64-bit word arithmetic (idx / 64, 1 << idx % 64, masks) is exact across word boundaries *)
+Theorem C01_item_and_lookahead_sets_are_sets_of_indices :
+  forall (n : N) (ops : list cb_op) (j : N), (j < n)%N -> cb_mem (cb_run n ops) j = fold_left (sb_step n) ops (fun _ : N => false) j.
+Proof. exact @cb_run_refines. Qed.
+Print Assumptions C01_item_and_lookahead_sets_are_sets_of_indices.
+
+(* set(i) is Prelude.bset_set on the abstraction the generator mirror uses *)
+Theorem C01_bitset_insert_is_the_models_insert :
+  forall (b b' : cbitset) (i : N), cb_wf b -> cb_set b i = Ok b' -> cb_abs b' = bset_set (cb_abs b) (N.to_nat i).
+Proof. exact @cb_abs_set. Qed.
+Print Assumptions C01_bitset_insert_is_the_models_insert.
+
+(* add(other) is Prelude.bset_or (FIRST-set propagation, closure lookaheads) *)
+Theorem C01_bitset_union_is_the_models_union :
+  forall a b : cbitset, cb_wf a -> cb_wf b -> cb_n a = cb_n b -> cb_abs (cb_add a b) = bset_or (cb_abs a) (cb_abs b).
+Proof. exact @cb_abs_add. Qed.
+Print Assumptions C01_bitset_union_is_the_models_union.
+
+(* test(i) is Prelude.bset_test *)
+Theorem C01_bitset_test_is_the_models_test :
+  forall (b : cbitset) (i : N), (i < cb_n b)%N -> bset_test (cb_abs b) (N.to_nat i) = cb_mem b i.
+Proof. exact @cb_abs_test. Qed.
+Print Assumptions C01_bitset_test_is_the_models_test.
+
+(* the generator never calls the whole-set set() / flip(): the padding bits of the last word stay 0 *)
+Theorem C01_generator_bitsets_keep_clean_padding :
+  forall (n : N) (ops : list cb_op), forallb whole_free ops = true -> cb_clean (cb_run n ops).
+Proof. exact @cb_run_clean_without_whole_set_ops. Qed.
+Print Assumptions C01_generator_bitsets_keep_clean_padding.
+
+(* hence operator== (state identity: 'is this item set already a state') is equality of the sets *)
+Theorem C01_bitset_equality_is_set_equality :
+  forall a b : cbitset, cb_wf a -> cb_wf b -> cb_n a = cb_n b -> cb_clean a -> cb_clean b -> cb_eqb a b = true <-> cb_abs a = cb_abs b.
+Proof. exact @cb_eqb_iff_same_set. Qed.
+Print Assumptions C01_bitset_equality_is_set_equality.
+
+(* REFUTED without that: after the whole-set set() on a size that is not a multiple of 64, operator== distinguishes equal sets (not reachable from the generator; character sets have 256 bits) *)
+Theorem C01_bitset_equality_with_polluted_padding_refuted :
+  exists (n : N) (ops ops' : list cb_op), cb_abs (cb_run n ops) = cb_abs (cb_run n ops') /\ cb_eqb (cb_run n ops) (cb_run n ops') = false.
+Proof. exact @cb_eqb_padding_refuted. Qed.
+Print Assumptions C01_bitset_equality_with_polluted_padding_refuted.
+
+(* stdex::sort (bubble sort, swap on strict <) on rule_infos terminates within size passes and yields exactly the stable sort by left side that Grammar.analyze uses: rules of one nonterminal stay contiguous and in the order written *)
+Theorem C01_rule_sort_is_the_models_stable_sort :
+  forall l : list rule_info, l <> [] -> stdex_sort (fun a b : rule_info => ri_l a <? ri_l b) l = Ok (sort_ris l).
+Proof. exact @stdex_sort_is_sort_ris. Qed.
+Print Assumptions C01_rule_sort_is_the_models_stable_sort.
+
+(* utils::str_equal on C strings = equality of the strings up to their terminators, nothing behind a terminator is read *)
+Theorem C01_symbol_names_are_compared_as_whole_strings :
+  forall s1 s2 r1 r2 : list nat, nul_free s1 -> nul_free s2 -> str_equal (s1 ++ 0 :: r1) (s2 ++ 0 :: r2) = Ok (list_eqb Nat.eqb s1 s2).
+Proof. exact @str_equal_spec. Qed.
+Print Assumptions C01_symbol_names_are_compared_as_whole_strings.
+
+(* in particular a declared name that is a proper prefix of the looked-up name is not a match *)
+Theorem C01_a_proper_prefix_is_not_the_same_name :
+  forall (s : list nat) (x : nat) (t r1 r2 : list nat), nul_free s -> nul_free (x :: t) -> str_equal (s ++ 0 :: r1) ((s ++ x :: t) ++ 0 :: r2) = Ok false.
+Proof. exact @str_equal_proper_prefix. Qed.
+Print Assumptions C01_a_proper_prefix_is_not_the_same_name.
+
+(* utils::find_str over a table of C strings = Grammar.find_str on identifiers: the first equal name, 'string not found' otherwise *)
+Theorem C01_symbol_lookup_is_the_models_find_str :
+  forall (table : list (list nat)) (s : list nat) (rests : list (list nat)) (rs : list nat), Forall nul_free table -> nul_free s -> length rests = length table -> find_str_c (map (fun p : list nat * list nat => fst p ++ 0 :: snd p) (combine table rests)) (s ++ 0 :: rs) 0 = match find_str table s with | Some i => Ok i | None => Throw end.
+Proof. exact @find_str_c_spec. Qed.
+Print Assumptions C01_symbol_lookup_is_the_models_find_str.
